@@ -672,6 +672,11 @@ type Case struct {
 	Route  string `json:"route,omitempty"`
 	ReqCT  string `json:"req_ct,omitempty"`
 	Accept string `json:"accept,omitempty"`
+	// PreCT (in-process HTTP shape cases): the request is preceded, on the
+	// SAME fresh mux, by a successful request of another client with the same
+	// Accept value and this Content-Type; the response is compared with the
+	// one a second fresh mux gives to the request alone.
+	PreCT string `json:"pre_ct,omitempty"`
 	// Opt selects mux options: "" defaults | "send64" | "send256"
 	// (MaxSendMessageSizeOption) | "recv64" (MaxReceiveMessageSizeOption).
 	Opt string `json:"opt,omitempty"`
@@ -897,6 +902,24 @@ func (e *Env) sockDo(cl *http.Client, path string, h http.Header, body []byte) *
 	return e.sockDoBody(cl, path, h, bytes.NewReader(body), sockTimeout)
 }
 
+// bodyFor encodes the request message for a registered media type (nil for
+// any other type).
+func bodyFor(ct, id string) []byte {
+	switch strings.ToLower(strings.TrimSpace(strings.SplitN(ct, ";", 2)[0])) {
+	case "application/json":
+		b, _ := protojson.Marshal(newChunk(id, 0))
+		return b
+	case "application/protobuf", "application/octet-stream":
+		b, _ := proto.Marshal(newChunk(id, 0))
+		return b
+	}
+	b, _ := protojson.Marshal(newChunk(id, 0))
+	if ct == "" || ct == "-" {
+		return b
+	}
+	return nil
+}
+
 // doHTTPShape sends the request of the HTTP-shape dimension: method, path,
 // Content-Type and Accept as the case says.
 func (e *Env) doHTTPShape(c *Case, id string, sock bool) *Obs {
@@ -911,7 +934,7 @@ func (e *Env) doHTTPShape(c *Case, id string, sock bool) *Obs {
 	case "upload":
 		path, body = "/v1/uploadu/"+id, []byte("\x89PNG\r\n\x1a\n not really")
 	case "post":
-		body, _ = protojson.Marshal(newChunk(id, 0))
+		body = bodyFor(c.ReqCT, id)
 	case "404":
 		method, path = "GET", "/v1/no-such-route/"+id
 	case "405":
@@ -933,13 +956,46 @@ func (e *Env) doHTTPShape(c *Case, id string, sock bool) *Obs {
 		h["Accept"] = []string{c.Accept}
 	}
 	if !sock {
-		var req *http.Request
-		if body == nil {
-			req = wire.BodyRequest(method, path, "", h, nil)
-		} else {
-			req = wire.BodyRequest(method, path, "", h, body)
+		mk := func() *http.Request {
+			hc := h.Clone()
+			if body == nil {
+				return wire.BodyRequest(method, path, "", hc, nil)
+			}
+			return wire.BodyRequest(method, path, "", hc, body)
 		}
-		return fromResp(wire.Serve(e.Mux, req))
+		if c.PreCT == "" {
+			return fromResp(wire.Serve(e.Mux, mk()))
+		}
+		// sequence: the same request alone on a fresh mux, and after another
+		// client's request on a second fresh mux
+		ref, err1 := e.Std.NewMux(e.impl)
+		seq, err2 := e.Std.NewMux(e.impl)
+		if err1 != nil || err2 != nil {
+			return &Obs{Err: fmt.Sprintf("environment: fresh mux: %v %v", err1, err2), Timeout: true}
+		}
+		oref := fromResp(wire.Serve(ref, mk()))
+		psc := Script{Replies: 1}
+		pid := e.register(&psc)
+		ph := http.Header{"Content-Type": {c.PreCT}}
+		if c.Accept != "-" {
+			ph["Accept"] = []string{c.Accept}
+		}
+		ppath, pbody := "/v1/echo", bodyFor(c.PreCT, pid)
+		if pbody == nil {
+			ppath, pbody = "/v1/uploadu/"+pid, []byte("prelude upload")
+		}
+		pre := wire.Serve(seq, wire.BodyRequest("POST", ppath, "", ph, pbody))
+		e.take(pid)
+		o := fromResp(wire.Serve(seq, mk()))
+		o.Panics = append(o.Panics, oref.Panics...)
+		if pre.Panic != nil {
+			o.Panics = append(o.Panics, pre.Panic)
+		}
+		if oref.HTTP != o.HTTP || oref.Hdr.Get("Content-Type") != o.Hdr.Get("Content-Type") || !bytes.Equal(oref.Body, o.Body) {
+			o.SeqDiff = fmt.Sprintf("alone: HTTP %d, Content-Type %q, %d body bytes %q; after a %q request with the same Accept: HTTP %d, Content-Type %q, %d body bytes %q",
+				oref.HTTP, oref.Hdr.Get("Content-Type"), len(oref.Body), clip(string(oref.Body), 60), c.PreCT, o.HTTP, o.Hdr.Get("Content-Type"), len(o.Body), clip(string(o.Body), 60))
+		}
+		return o
 	}
 	ctx, cancel := context.WithTimeout(context.Background(), sockTimeout)
 	defer cancel()
